@@ -11,6 +11,7 @@ import (
 	"crypto/rand"
 	"errors"
 	"fmt"
+	"os"
 	"runtime"
 	"strings"
 	"sync"
@@ -101,6 +102,49 @@ func c16Streams() []c16Stream {
 	}
 }
 
+// c16Explore runs an exploration.  The random source of these scenarios never blocks and every
+// operation a worker may wait in is a scheduling point, so a thread that the scheduler released and
+// that does not come back to a scheduling point for vsched.StallTimeout (a minute; thousands of
+// candidates take milliseconds) is a worker running through candidates without ever looking at its
+// stop channel again.  That is reported; the process then ends, since the goroutine cannot be stopped.
+func c16Explore(r *vkit.Report, prop, scenario string, opt vsched.Options, fresh func() vsched.Scenario) vsched.Result {
+	defer func() {
+		e := recover()
+		if e == nil {
+			return
+		}
+		msg := fmt.Sprint(e)
+		if !strings.Contains(msg, "HARNESS-STALL") {
+			panic(e)
+		}
+		where := "?"
+		lines := strings.Split(msg, "\n")
+		for i, l := range lines {
+			// the goroutine that is inside the candidate loop (not one parked at a scheduling point)
+			if strings.Contains(l, "safeprime.Generate(") && i+1 < len(lines) {
+				l = strings.TrimSpace(lines[i+1])
+				if j := strings.LastIndex(l, "/"); j >= 0 {
+					l = l[j+1:]
+				}
+				if j := strings.Index(l, " "); j >= 0 {
+					l = l[:j]
+				}
+				where = l
+				break
+			}
+		}
+		head := msg
+		if i := strings.Index(head, "goroutine "); i > 0 {
+			head = head[:i]
+		}
+		r.Violate(prop+"|stop-protocol|worker-runs-on-without-looking-at-stop", fmt.Sprintf("%s: a worker did not reach any scheduling point (stop check, result hand-over) for %v while candidates keep coming; innermost library frame %s; %s", scenario, vsched.StallTimeout, where, head), map[string]any{"scenario": scenario})
+		r.Cap("aborted: a worker of the code under test spins")
+		r.Finish()
+		os.Exit(0)
+	}()
+	return vsched.Explore(opt, fresh)
+}
+
 func TestVerifC16Stop(t *testing.T) {
 	r := vkit.Start(t, "C16", "stop-protocol", 240*time.Second, 1500*time.Second)
 	defer r.Finish()
@@ -176,7 +220,7 @@ func TestVerifC16Stop(t *testing.T) {
 					}
 				}}
 			}
-			res := vsched.Explore(vsched.Options{MaxPreemptions: b, Deadline: deadline, Shard: r.Shard, Shards: r.Shards, MaxSteps: 400}, fresh)
+			res := c16Explore(r, "C16", fmt.Sprintf("workers=%d stream=%q", workers, st.name), vsched.Options{MaxPreemptions: b, Deadline: deadline, Shard: r.Shard, Shards: r.Shards, MaxSteps: 400}, fresh)
 			r.Schedules += int64(res.Executions)
 			r.States += res.Points + res.DataPoints
 			r.Transitions += res.Points + res.DataPoints
@@ -274,7 +318,7 @@ func TestVerifC16StopDrain(t *testing.T) {
 					}
 				}}
 			}
-			res := vsched.Explore(vsched.Options{MaxPreemptions: bound, Deadline: deadline, Shard: r.Shard, Shards: r.Shards, MaxSteps: 40}, fresh)
+			res := c16Explore(r, prop, fmt.Sprintf("drain workers=%d script=%v", workers, script), vsched.Options{MaxPreemptions: bound, Deadline: deadline, Shard: r.Shard, Shards: r.Shards, MaxSteps: 40}, fresh)
 			r.Schedules += int64(res.Executions)
 			r.States += res.Points + res.DataPoints
 			r.Transitions += res.Points + res.DataPoints
